@@ -104,6 +104,10 @@ def run(ctx):
     ctx.rule('C09.R4', 'values stored among the callbacks are callbacks; '
              'anything else sits under a non-wire key', floor=2)
     msgpath.table_provenance(ctx, 'BaseClient', 'C09.R4')
+    from .common import shared_table_aliasing
+    shared_table_aliasing(
+        ctx, ('callbacks',), 'a callback stored for one namespace / client '
+        'is completed by an acknowledgement bearing the same id on another')
     ctx.rule('C09.R5', 'one id counter per namespace; emit generates the '
              'id before building the packet and sends that id', floor=9)
     msgpath.counter_discipline(ctx, 'BaseClient', 'namespace', 'C09.R5')
